@@ -459,9 +459,26 @@ def handleTx (ds : DS) (j : Json) : IO DS := do
       | "shield.deposit" =>
         ds := stat ds "mon.c06.deposit"
         for x in ShieldD.monDepositAccepted ds.shield (J.strOf m "from") do ds ← finding ds "monitor" "C06" "collateral_backed_by_stake" x
+        if ds.hasStk && (Shield.findProvider pre.sh (J.strOf m "from")).isNone then
+          match Shield.findProvider ds.shield (J.strOf m "from") with
+          | some p =>
+            let want := StakingD.stakeOf ds.stk p.addr
+            if (p.bonded - want).natAbs > 1 then
+              ds ← finding ds "monitor" "C06" "recorded_stake_is_delegated_tokens" s!"new provider {p.addr}: recorded bonded stake {p.bonded}, delegations are worth {want}"
+          | none => pure ()
       | "staking.delegate" | "staking.undelegate" | "staking.redelegate" =>
         ds := stat ds "mon.c06.staking_action"
         for x in ShieldD.monBackedAfterStaking ds.shield (J.strOf m "del") do ds ← finding ds "monitor" "C06" "collateral_backed_by_stake" x
+        -- the stake the module records for the provider is what its delegations are worth now
+        if ds.hasStk then
+          match Shield.findProvider ds.shield (J.strOf m "del") with
+          | some p =>
+            let want := StakingD.stakeOf ds.stk p.addr
+            -- (the hook runs before the validator's totals are updated: each delegation may round differently by one unit)
+            let slack : Int := (ds.stk.dels.filter (·.1 == p.addr)).length + 1
+            if (p.bonded - want).natAbs > slack.toNat then
+              ds ← finding ds "monitor" "C06" "recorded_stake_is_delegated_tokens" s!"provider {p.addr}: recorded bonded stake {p.bonded}, delegations are worth {want} after its {J.strOf m "t"}"
+          | none => pure ()
       | "shield.withdraw" =>
         ds := stat ds "mon.c07.request"
         for x in ShieldD.monWithdrawAccepted pre.sh (J.strOf m "from") (J.intOf m "amt") do ds ← finding ds "monitor" "C07" "request_within_collateral" x
@@ -616,6 +633,7 @@ def handleEnd (ds : DS) (j : Json) : IO DS := do
         ds ← finding ds "diverge" "C09" "state:end:validator-updates" s!"model=[{StakingD.showUpd (Staking.updates ds.view tgt)}] impl=[{StakingD.showUpd vu}]"
     else ds := stat ds "sit.c09.tie_at_the_cut"
     ds := { ds with view := view' }
+    for x in StakingD.poolProblems ds.stk do ds ← finding ds "monitor" "C09,C01" "staking_pools_hold_the_stake" x
     -- unbondings and redelegations whose time has come are completed; the others stay
     let due := Staking.matured ds.t preStk.ubds
     if !due.isEmpty then ds := stat ds "sit.c09.unbondings_matured"
@@ -659,7 +677,7 @@ def handleEnd (ds : DS) (j : Json) : IO DS := do
     let ended := Gov.sortByKey (·.votingEnd) (pre.g.proposals.filter (fun p => p.kind == "claim" && GovD.liveStatus p.status &&
       (ds.gov.proposals.find? (·.id == p.id)).any (fun q => !GovD.liveStatus q.status)))
     let burned := Coins.amountOf (Coins.sub pre.l.supply ds.ledger.supply) "uctk"
-    let rejected := ended.filter (fun p => (ds.gov.proposals.find? (·.id == p.id)).any (·.status == 5))
+    let rejected := ended.filter (fun p => (ds.gov.proposals.find? (·.id == p.id)).any (fun q => q.status == 5 || q.status == 6))
     if (ended.filter (fun p => (ds.gov.proposals.find? (·.id == p.id)).any (·.status == 4))).length > 1 then
       -- two payouts in one block: the bonded stake the hooks saw after the first one is not observable
       shieldOk := false
@@ -670,7 +688,7 @@ def handleEnd (ds : DS) (j : Json) : IO DS := do
       let dep := Coins.amountOf ((pre.g.deposits.filter (·.pid == p.id)).foldl (fun acc d => Coins.add acc d.amount) ([] : Coins)) "uctk"
       let outcome : Option Shield.ClaimOutcome :=
         if q.status == 4 then some .paid
-        else if q.status == 6 then some .failed
+        else if q.status == 6 then some .rejected      -- a payout that fails undoes the lock like a rejection (x/gov/endblocker.go)
         else if rejected.length == 1 && dep > 0 then (if burned == dep then some .vetoed else some .rejected)
         else if dep > 0 && burned == 0 then some .rejected
         else none
